@@ -51,6 +51,19 @@ CHECKS["C06"] = dict(
           "of the domain."),
     note=SEM_NOTE, technique=SEM_TECH, design_ref="DESIGN.md section 4 C06, 2.1", engine="FortranSem")
 
+CHECKS["C08"] = dict(
+    level="model_checking",
+    text=("DependencyTools.can_loop_be_parallelised is asked (under a CPU-time alarm: clause Answers) about "
+          "every loop of ~280 generated routines (write x read subscript grid incl. i/2, mod, index "
+          "arrays, n-i; conditional/unconditional scalar writes, reductions, nests, other steps, "
+          "variables named d_<var>); TLC executes each loop under FortranSem.tla with per-iteration "
+          "read/write location sets on every input (SemAccess.tla) and checks: verdict true => no two "
+          "iterations of one loop execution conflict, except scalars every iteration writes before reading."),
+    note=SEM_NOTE, technique=("TLA+ operational semantics with access tracking executed by TLC; the real "
+                              "analysis verdict is validated against the Bernstein conditions of all "
+                              "executions in the bounded input domain"),
+    design_ref="DESIGN.md section 4 C08", engine="FortranSem")
+
 NOT_YET = {}
 
 ALL = [f"C{i:02d}" for i in range(1, 30)]
